@@ -10,6 +10,23 @@ reaching another client than its own also breaks C12 / C11 (sent back to the sou
 request). The driver only turns the harness's verdict into messages. -/
 def step (op res : String) : List String :=
   match words op with
+  | ["svstart", secs, chain] =>
+    -- the whole server through `server.Start` (harness/start.go): every configured section must answer a request a chain of
+    -- no handler or of one pass-through handler cannot refuse — the ADVERTISE (type 2) / OFFER (type 2) the server itself
+    -- prepared (C13: with no handler, what is sent is the response the server built)
+    let has6 := secs == "6" || secs == "46"
+    let has4 := secs == "4" || secs == "46"
+    if res.startsWith "skip" then ["br:serve.skip", s!"DIVERGE drift serve engine could not run: {res}"]
+    else if res.startsWith "start-err" then
+      ["DIVERGE dom model=starts", s!"FAIL C13 server.Start refused a valid configuration (sections {secs}, chain {chain}): {res}"]
+    else match words res with
+      | ["ok", r6, r4] =>
+        let want6 := if has6 then "6:2" else "6:-"
+        let want4 := if has4 then "4:2" else "4:-"
+        if r6 == want6 && r4 == want4 then [s!"br:serve.start.{chain}"]
+        else ["DIVERGE dom model=every-configured-section-answers",
+              s!"FAIL C13 the server was started with sections {secs} and a chain that is {chain}: a request was answered {r6} {r4}, the prepared ADVERTISE / OFFER was expected ({want6} {want4})"]
+      | _ => ["DIVERGE drift unparsed-result"]
   | proto :: _k :: mode :: procs :: _ =>
     let tag := s!"br:serve.{proto}.{mode}.procs{if procs == "1" then "1" else "n"}"
     if res.startsWith "ok" then
